@@ -188,6 +188,54 @@ func runThorough(c *Ctx, spec *PropSpec, verif, repo string, extra map[string]an
 	} else {
 		c.ok("SELF-VALIDATION", "", "mutant replay", 0, fmt.Sprintf("%d/%d applicable breaking changes are reported (%d patches no longer apply)", nCaught, nApplied, nSkipped))
 	}
+	// 3b. negative controls: behaviour-preserving refactorings written for this property must stay silent.
+	// A report here is a defect of the rules (too syntactic), not of the tree, so it never decides the
+	// property; it is printed and recorded so that it gets repaired.
+	{
+		var controls []any
+		nApplied, nSilent := 0, 0
+		ps, _ := filepath.Glob(filepath.Join(verif, "benign", c.Prop+"-*", "patch.diff"))
+		sort.Strings(ps)
+		for _, p := range ps {
+			tmp, err := os.MkdirTemp("", "hl-thorough-")
+			if err != nil {
+				continue
+			}
+			func() {
+				defer os.RemoveAll(tmp)
+				if _, err := exec.Command("rsync", "-a", "--exclude", ".git", repo+"/", tmp+"/").CombinedOutput(); err != nil {
+					return
+				}
+				ap := exec.Command("git", "apply", "--whitespace=nowarn", p)
+				ap.Dir = tmp
+				if err := ap.Run(); err != nil {
+					controls = append(controls, map[string]any{"patch": rel(verif, p), "status": "skipped: patch no longer applies to the current tree"})
+					return
+				}
+				nApplied++
+				r := runSelf(c.Prop, tmp, verif)
+				pset := map[string]bool{}
+				for _, l := range strings.Split(prim, "\n") {
+					pset[l] = true
+				}
+				var extraNews []string
+				for _, n := range r.news {
+					if !pset[n] {
+						extraNews = append(extraNews, n)
+					}
+				}
+				if len(extraNews) == 0 && r.rc != 2 {
+					nSilent++
+					controls = append(controls, map[string]any{"patch": rel(verif, p), "status": "silent"})
+				} else {
+					controls = append(controls, map[string]any{"patch": rel(verif, p), "status": "FALSE ALARM", "reports": extraNews})
+					c.note("NEGATIVE-CONTROL: the behaviour-preserving change %s makes this property's rules report %v", rel(verif, p), extraNews)
+				}
+			}()
+		}
+		extra["negative_controls"] = controls
+		extra["negative_control_replay"] = map[string]int{"patches": len(ps), "applied": nApplied, "silent": nSilent}
+	}
 	// 4. cross-reference tools (never decide): counts only
 	xref := map[string]any{}
 	for _, t := range [][]string{{"go", "vet", "./..."}, {"staticcheck", "./..."}, {"errcheck", "-blank", "./..."}} {
